@@ -55,7 +55,7 @@ def setup_worker(job: Dict[str, Any]) -> None:
     _px.update(px)
     # origin certificates are made up front (real openssl runs outside any World)
     for host, _, _ in HOSTS:
-        for kind in ('good', 'selfsigned', 'wrongname', 'expired', 'oddsubject'):
+        for kind in ('good', 'selfsigned', 'wrongname', 'expired', 'oddsubject', 'emptysubject'):
             _px[(host, kind)] = origin_cert(px, host.strip('[]'), kind)
 
 
@@ -85,12 +85,12 @@ def run_one(tape: Any, cfg: Dict[str, Any], forbid: FrozenSet[str] = frozenset()
         w.dns['secure.example'] = ['10.0.7.1']
         w.dns['other.example'] = ['10.0.7.2']
         w.dns[HOSTS[4][0]] = ['10.0.7.5']
-        situation = ['good', 'selfsigned', 'wrongname', 'expired', 'oddsubject'][tape.weighted([5, 2, 2, 1, 1], 'cert')]
-        if situation == 'oddsubject' and not g.note('odd_upstream_subject'):
+        situation = ['good', 'selfsigned', 'wrongname', 'expired', 'oddsubject', 'emptysubject'][tape.weighted([5, 2, 2, 1, 1, 1], 'cert')]
+        if situation in ('oddsubject', 'emptysubject') and not g.note('odd_upstream_subject'):
             situation = 'good'
-        odd_subject = situation == 'oddsubject'     # trusted and rightly named; only its subject has '/' and '+' in a value
+        # (oddsubject / emptysubject: trusted and rightly named; only the subject is unusual - separators inside a value, or none)
         w.probe({'good': 'trusted_origin', 'selfsigned': 'selfsigned_origin', 'wrongname': 'wrongname_origin',
-                 'expired': 'expired_origin', 'oddsubject': 'odd_subject_origin'}[situation])
+                 'expired': 'expired_origin', 'oddsubject': 'odd_subject_origin', 'emptysubject': 'odd_subject_origin'}[situation])
         insecure = g.feature('insecure_switch', 0.25)
         opt_out = g.feature('opt_out', 0.15)
         cold = g.feature('cold_cache', 0.15)
@@ -199,7 +199,7 @@ def run_one(tape: Any, cfg: Dict[str, Any], forbid: FrozenSet[str] = frozenset()
 
         # ---- oracle -------------------------------------------------------------------------------------------------
         sig = '%s:%s%s%s' % (hkind, situation, ':insecure' if insecure else '', ':optout' if opt_out else '')
-        relay_expected = situation in ('good', 'oddsubject') or (insecure and not opt_out)
+        relay_expected = situation in ('good', 'oddsubject', 'emptysubject') or (insecure and not opt_out)
         if not w.failures and not w.hung:
             ot = org.conns[0].tls if org.conns and org.conns[0].tls is not None else None
             orx = bytes(org.conns[0].rx) if org.conns else b''
@@ -210,7 +210,7 @@ def run_one(tape: Any, cfg: Dict[str, Any], forbid: FrozenSet[str] = frozenset()
 
             elif opt_out:
                 # opaque tunnel: the client's TLS goes end to end to the origin; the proxy must not have touched it
-                if situation in ('good', 'oddsubject'):
+                if situation in ('good', 'oddsubject', 'emptysubject'):
                     if ct is None or not ct.done:
                         w.fail('opt_out_not_opaque', sig, 'opted-out tunnel: end-to-end TLS with the origin failed: %s %s'
                                % (ct and ct.error, ct and ct.error_detail))
